@@ -35,6 +35,9 @@ theorem reserveRemote_state_same {s : Streams} {id : Nat} {st' : State} {r : Exc
   have := reserveRemote_closed x.state hc
   rw [h] at this; exact this
 
+theorem notifyPushIfRecvEnded_ext (s : Streams) (id : Nat) : Ext s (s.notifyPushIfRecvEnded id) := by
+  unfold Streams.notifyPushIfRecvEnded; ext_auto
+
 theorem recvRecvHeaders_ext (s : Streams) (id : Nat) (h : HeadersIn) : Ext s (s.recvRecvHeaders id h).1 := by
   unfold Streams.recvRecvHeaders; ext_auto
   all_goals (first | exact recvOpen_state_same (by assumption) | skip)
@@ -124,5 +127,8 @@ theorem recvPollInformational_ext (s : Streams) (id : Nat) (t : String) : Ext s 
     · cases heq; ext_auto
     · cases heq
   · ext_auto
+
+theorem recvPollPushed_ext (s : Streams) (id : Nat) (tag : String) : Ext s (s.recvPollPushed id tag).1 := by
+  unfold Streams.recvPollPushed; ext_auto
 
 end H2V.Lemmas.ConnRecvP
